@@ -66,7 +66,7 @@ prop("C06",
      level_text="Per-constructor production lemmas (ACPI 6.5 20.2) around opaque symbolic children of concrete length: opcode order, PkgLength closing on the last child, operand order, flag bits over all enum variants; all finite trees follow by structural induction on the constructors. " + K,
      level_note=TRUST + " The induction step itself (children correct by hypothesis, PkgLength by C07) is an argument, not a query.",
      bounds="all exported constructors; 0..=3 children of 0..=3 bytes; 1- and 2-segment names, rooted and not; names through the Path hook",
-     outside="bodies at the 63/64 and 4095/4096 boundaries are covered for Scope (C15) and templates (C10) only; 2^20 bodies are not materialised", jobs=14, timeout=900, mir=None)
+     outside="bodies at the 63/64 boundary for ten constructors only; the 4095/4096 boundary is not materialised for C06 (tried: symbolic execution > 2400 s; the encoder itself is decided for every length by C07); 2^20 bodies are not materialised", jobs=14, timeout=900, mir=None)
 prop("C07",
      level_text="The private encoder is driven through a pass-through hook with the length itself symbolic (one query covers all 2^28 lengths x both forms); decoded value, lead-byte format and minimality asserted; Field/Named/Reserved tie it to the public API. Engine M re-derives the same statement from rustc's MIR (dev and release) with z3, cross-checked by cvc5. " + K,
      level_note=TRUST + " Engine M trusts the MIR text dump and my 400-line translator, validated on the crate's own test vectors.",
@@ -110,7 +110,7 @@ prop("C16",
 
 
 prop("C18",
-     level_text="Three parts. (1) Refusal harnesses (Kani/CBMC, dev semantics) per caller-controlled field: the call with the oversized count/size must panic inside the crate on every path, or return bytes whose count/length field agrees with the content (255 elements/segments accepted, 256 refused, symbolic args > 7, symbolic lengths >= 2^28, 59 private resources, unrepresentable ranges, SLIT size). (2) Engine M on *release* MIR for the sites whose only dev-profile refusal is an overflow check (address ranges): 'does the function return with a wrong length' must be unsat; a sat witness is replayed with cargo test --release. (3) Narrowing-cast census from MIR, informational. " + K,
+     level_text="Three parts. (1) Refusal harnesses (Kani/CBMC, dev semantics) per caller-controlled field: the call with the oversized count/size must panic inside the crate on every path, or return bytes whose count/length field agrees with the content (255 path segments and 255 CXIMS entries accepted, a 3-element package accepted -- 255 elements was tried and is out of reach --, 256 refused, symbolic args > 7, symbolic lengths >= 2^28, 59 private resources, unrepresentable ranges, SLIT size). (2) Engine M on *release* MIR for the sites whose only dev-profile refusal is an overflow check (address ranges): 'does the function return with a wrong length' must be unsat; a sat witness is replayed with cargo test --release. (3) Narrowing-cast census from MIR, informational. " + K,
      level_note=TRUST + " Sites whose witness needs >= 64 KiB of elements (ISA strings, SMBIOS handles, RIMT wires/mappings, VIOT/RQSC 16-bit accumulators) cannot be materialised in CBMC: they are pinned by the native demonstrations in findings/demo (cargo test, dev and release), not by a solver query.",
      bounds="see text; PkgLength/field widths: all len in [2^28, usize::MAX-8]; method args: all of 8..=255",
      outside="16-bit fields fed by >= 65536 real elements (native demos only); u32 table lengths (>= 4 GiB)",
